@@ -38,7 +38,7 @@ fn c17_ids_algebra() {
     assert_eq!(QStreamId::MAX.into_u64(), (1u64 << 60) - 1);
 }
 
-// @h props=C17 tier=quick t=120 expect=fail sub=twin
+// @h props=C17 tier=quick t=900 expect=fail sub=twin
 // @fn wtransport-proto/src/ids.rs SessionId::try_from_session_stream
 // @bound twin: deliberately wrong oracle (v mod 4 == 1), must be refuted by the solver
 #[kani::proof]
